@@ -19,6 +19,7 @@ import io
 import logging
 import os
 import random as _random
+import signal
 import struct
 import zlib
 import zipfile
@@ -499,19 +500,19 @@ def gen(tier, rng, shard, nshards):
             if mine():
                 yield "real", mk_line(f"r{i}", ops)
     # random histories on real configurations
-    for _ in range((1400 if thorough else 160) // nshards):
+    for _ in range((3000 if thorough else 200) // nshards):
         i = rng.randrange(nreal)
         n = rng.randrange(1, 26)
         yield "real", mk_line(f"r{i}", gen_ops(rng, n, False, rng.random() < 0.5))
     # synthetic configurations
-    for _ in range((900 if thorough else 110) // nshards):
+    for _ in range((1800 if thorough else 120) // nshards):
         tok = C.hx(gen_synth(rng))
         if rng.random() < 0.4:
             yield "synth", mk_line(tok, rng.choice(DIRECTED))
         for _ in range(2):
             n = rng.randrange(1, 26)
             yield "synth", mk_line(tok, gen_ops(rng, n, True, rng.random() < 0.5))
-    for _ in range((500 if thorough else 70) // nshards):
+    for _ in range((900 if thorough else 70) // nshards):
         tok = C.hx(gen_synth(rng, degenerate=True, own_key=rng.random() < 0.8))
         n = rng.randrange(1, 16)
         yield "degenerate", mk_line(tok, gen_ops(rng, n, False, rng.random() < 0.5))
@@ -758,11 +759,21 @@ def run_fresh(tok, op, variants, text):
             var = variants.get(int(w[1]))
             if var is None:
                 return "no-decoder"
-            r.run(var)
+            try:
+                r.run(var)
+            except Exception as e:  # noqa: BLE001  (a client may fail after it has built its decoder)
+                _reraise_watchdog(e)
             return r.run(f"{w[0]}:0:{w[2]}")[2]
         return r.run(op)[2]
     except Exception as e:  # noqa: BLE001
+        _reraise_watchdog(e)
         return ("exc", type(e).__name__)
+
+
+def _reraise_watchdog(e):
+    """the runner's per-case watchdog (check.Timeout, raised from SIGALRM) must never be read as a library exception"""
+    if type(e).__name__ == "Timeout":
+        raise e
 
 
 def exc_name(e) -> str:
@@ -782,12 +793,17 @@ def impl(stream, line):
     table = shape_cached(tok)[0]
     nlists = shape_cached(tok)[3]
     logging.disable(logging.CRITICAL)
+    # a history is up to ~50 library calls, each repeated on a fresh configuration, plus Lark's Reconstructor (~0.3 s
+    # per profile text): the runner's 10 s per-case watchdog is re-armed to 90 s so that a loaded machine does not
+    # turn into a verdict (check.call_impl cancels the alarm when impl returns)
+    if signal.getsignal(signal.SIGALRM) not in (signal.SIG_DFL, signal.SIG_IGN, None):
+        signal.alarm(90)
     try:
         cfg = fresh(tok)
         initial = deep_snapshot(fresh(tok))
         r = Runner(cfg)
-        # Lark's Reconstructor dominates the cost: the text is regenerated in one history out of three
-        r.text_budget = 1 if zlib.crc32(line.encode()) % 3 == 0 else 0
+        # Lark's Reconstructor dominates the cost: the text is regenerated in one history out of four
+        r.text_budget = 1 if zlib.crc32(line.encode()) % 4 == 0 else 0
         out = []
         viol = None
         variants = {}  # decoder number -> op that built it
@@ -797,6 +813,7 @@ def impl(stream, line):
                 kind, payload, can = r.run(op)
                 exc = None
             except Exception as e:  # noqa: BLE001
+                _reraise_watchdog(e)
                 kind, payload, can, exc = "E", None, ("exc", type(e).__name__), exc_name(e)
             if len(r.decs) > ndec0:
                 variants[ndec0] = op
